@@ -11,7 +11,7 @@ from . import c18
 ID = 'C15'
 WORLD = 'gdb'
 LEVEL = 'exploration'
-RUNS = {'quick': 9600}
+RUNS = {'quick': 6400}
 BUDGET_S = {'thorough': 600}
 RULE = ('one evaluation = one simulated GDB session: a fake inferior with 1-3 connection slots (client and server side) on 1-3 '
         'threads hits serialize_closure / wl_closure_invoke / wl_closure_dispatch / wl_connection_destroy in seeded order, with '
@@ -55,11 +55,15 @@ def generate(seed, tier, index):
         if rng.random() < 0.7:
             intents.append(['act', s, 'get_registry', 0, 0, rng.randrange(1 << 30), 0])
     rng.shuffle(intents)
-    intents += gen_gdb_traffic(rng, seed, nslots, n, p_destroy=rng.choice([0.03, 0.08, 0.2]))
+    calibrating = (tier == 'thorough' and index < 16)
+    intents += gen_gdb_traffic(rng, seed, nslots, n, p_destroy=rng.choice([0.03, 0.08, 0.2]),
+                               p_foreign_thread=0.0 if calibrating else 0.05)
     if rng.random() < 0.3:
         intents.insert(0, ['destroy', rng.randrange(nslots), 1])     # destroy before anything was seen
     cfg = {'nslots': nslots, 'sides': [rng.choice(['client', 'server']) for _ in range(nslots)], 'synth': True,
            'suppress': rng.random() < 0.5}
+    if tier == 'thorough' and index < 16:
+        cfg['calibrate_real_gdb'] = True     # stub fidelity (only used when no foreign-thread message occurred: the C program is single-threaded)
     return {'prop': ID, 'seed': seed, 'config': cfg, 'intents': intents}
 
 
@@ -145,6 +149,12 @@ def execute(sc):
         got = [(c.name(), c.is_open(), len(c.messages())) for c in sim.cm.connections()]
         if got != want:
             V.add('C15/close-on-destroy', 'connections()', 'connections() = %r, expected %r' % (got, want))
+    if sc['config'].get('calibrate_real_gdb') and not V.list and all(h['thread'] == 1 for h in sim.hits):
+        from .. import realgdb
+        problems = realgdb.calibrate(sim)
+        V.bump('calibration_real_gdb_sessions')
+        if problems:
+            raise rig.HarnessError('fake gdb disagrees with the real gdb: ' + '; '.join(problems)[:3000])
     for h in sim.hits:
         if h['kind'] == 'message' and h['thread'] != 1:
             V.bump('probe_message_from_foreign_thread')
